@@ -117,7 +117,10 @@ def rename(spec, rng, eps_choices=('ε', '_', '', 'e'), special_p=0.08, keep_sym
         while len(set(syms)) < len(syms):
             syms = rng.sample(pool, len(syms))
         sm = dict(zip(sorted(set(sig) | set(gam)), syms))
-        if spec['kind'] == 'pda' and gam and rng.random() < 0.3:
+        if spec.get('keep_gamma'):
+            for g in gam:
+                sm[g] = g
+        elif spec['kind'] == 'pda' and gam and rng.random() < 0.3:
             # multi-character stack symbols, one a concatenation of others (legal through the constructor)
             base = rng.choice('ABXZ')
             forms = [base, base * 2, base * 3] if rng.random() < 0.5 else [base, 'Q', base + 'Q']
@@ -126,7 +129,7 @@ def rename(spec, rng, eps_choices=('ε', '_', '', 'e'), special_p=0.08, keep_sym
                     sm[g] = f
     if 'eps' in spec:
         sm[spec['eps']] = eps
-    out = dict(spec)
+    out = {k: v for k, v in spec.items() if k != 'keep_gamma'}
     out['Q'] = [qm[q] for q in Q]
     out['Sigma'] = [sm[a] for a in sig]
     out['q0'] = qm[spec['q0']]
